@@ -237,8 +237,7 @@ pub fn run(cfg: &Cfg, rep: &mut Report) {
         enum_nodes: if cfg.quick() { 3 } else { 4 },
         enum_flags: vec![fl(""), fl("m"), fl("iu")],
         tweak,
-        fixed,
-    };
+        fixed, templates: true };
     let opts = DriveOpts { budget: if cfg.quick() { 100 } else { 300 }, n_long: 3, n_plant: 2, ascii_only: false, sample_every: 199 };
     drive(&C09 { limits: RefLimits { max_steps: 300_000, max_depth: 20_000 } }, cfg, rep, &spec, &opts);
 }
